@@ -28,7 +28,7 @@ def _coarse_geometry(bins, k):
 
 
 def _bins_for(p):
-    bins = concrete_bins(p["layout"], p["kind"])
+    bins = concrete_bins(p["layout"], p["kind"], **({"b": p["b"]} if p.get("b") else {}))
     if p.get("chrom_names"):
         # chromosome names whose given order is not the lexicographic one
         bins["chrom"] = bins["chrom"].map({f"c{i}": nm for i, nm in enumerate(p["chrom_names"])})
@@ -150,6 +150,11 @@ def _cases(tier):
                 out.append(c)
     # chromosome names whose order in the file is not the lexicographic one
     out.append(dict(layout=[2, 1], kind="variable", K=2, upper=True, nproc=1, kmax=2, agg="sum", chrom_names=["chr2", "chr10"]))
+    # three coarse rows over variable-width bins, square storage: a column may lie two coarse bins before the row of a span's first pixel
+    out.append(dict(layout=[5], kind="variable", K=2, upper=False, nproc=1, kmax=2, agg="sum"))
+    # a genome longer than 2^31 bp whose chromosomes each fit the int32 coordinate columns (variable-width and fixed-width bins)
+    out.append(dict(layout=[2, 2], kind="variable", K=2, upper=False, nproc=1, kmax=2, agg="sum", b=6 * 10**8))
+    out.append(dict(layout=[2, 2], kind="fixed", K=2, upper=True, nproc=1, kmax=2, agg="sum", b=10**9))
     # a float64 count column with fractional values, coarsened without an explicit dtype
     out.append(dict(layout=[3], kind="fixed", K=2, upper=True, nproc=1, kmax=2, agg="sum", float_counts=True))
     # ... and with a dtypes dict that names only some of the columns: the others keep the source's types
